@@ -125,6 +125,13 @@ def check_C07(run):
     run.extra["disagreements_checked"] = len(run.violations) + len(run.known)
     run.evaluations = members
     run.nontrivial = members
+    # the one description the repository itself generates from, with the program written against its stubs
+    from props_cert import build_cert
+    srv = build_cert(run)
+    if isinstance(srv, tuple):
+        run.violation("C07: the repository's certification description does not go through the generator and the compiler together with the program that uses its stubs (%s): %s" % (srv[0], srv[1][:1200]),
+                      {"kind": "cert-build", "stage": srv[0], "output": srv[1]})
+    run.extra["certification_program_builds"] = not isinstance(srv, tuple)
     run.write_evidence("translation_validation",
         "programs = TLC-enumerated set Programs of spec/IdlProg.tla: every type tree of depth <= %d at five positions (alias body, method input field, method output field, echo method, error parameter), packed %d types per description; plus name classes (6 interface-name forms incl. dashes, upper case, digits, xn--), 40 field names that are Go keywords / generator-local identifiers / predeclared identifiers, typeless and empty errors, a recursive named type, doc comments containing backticks and quotes on every member; each generated twice (determinism), all packages built in one scratch module against /repo, each compiled package asked for VarlinkGetName/VarlinkGetDescription; a packed description that fails is split per member so that findings name the member; evaluations = members generated and compiled" % (depth, chunk),
         exhaustive=True,
@@ -184,12 +191,17 @@ def check_C08(run):
             run.violation("C08 generated stubs: call event not allowed by the specification: " + bad[:700], {"kind": "case", "event": bad})
         remaining = [c for k, c in enumerate(remaining) if k != r["line"] - 1]
     calls = [l for l in events if '"ev":"C08"' in l]
-    run.traces_validated = len(remaining)
-    run.evaluations = len(calls)
-    run.nontrivial = sum(1 for l in calls if '"mode":"reply"' in l or '"mode":"error"' in l)
-    run.states = len(events) + 1
-    run.transitions = len(events)
+    run.nontrivial += sum(1 for l in calls if '"mode":"reply"' in l or '"mode":"error"' in l)
+    run.states += len(events) + 1
+    run.transitions += len(events)
     run.add_samples([json.loads(c) for c in run.rng.sample(calls, min(4, len(calls)))])
+    # the repository's own description through its own generator, compiler and implementation: the certification service
+    # as a state machine (spec/Cert.tla), driven over raw connections with TLC-generated histories
+    from props_cert import cert_stage
+    ncert = cert_stage(run, [("chain", 14, 30, 200), ("wild", 12, 30, 200)], "C08")
+    run.traces_validated += len(remaining)
+    run.evaluations += len(calls)
+    run.extra["certification_histories_validated"] = ncert
     run.extra["programs"] = len(progs)
     run.extra["disagreements_checked"] = len(run.violations)
     run.extra["calls_by_mode"] = {m: sum(1 for l in calls if '"mode":"%s"' % m in l) for m in ["reply", "error", "unknown", "undecodable", "flag-more", "flag-oneway", "flag-upgrade"]}
